@@ -677,7 +677,25 @@ class ExprMixin:
             seq = self.seq_term(base, st)
             i = self.norm_index(self.as_int(idx, st, node), th.Len(seq), st, node)
             elt = INT if isinstance(t, TBytes) else t.elt
-            return unbox(th.Idx(seq, i), elt)
+            item = unbox(th.Idx(seq, i), elt)
+            et = elt.inner if isinstance(elt, TOpt) else elt
+            if is_ref_type(et) and not isinstance(et, TOpaque):
+                # heap well-formedness: what a list holds is an allocated object (or None), so an object created
+                # later cannot alias it; quantified when the index mentions bound variables
+                from .heap import _occurs
+                al = self.alloc_map(st)
+                fact = z3.Implies(z3.And(0 <= i, i < th.Len(seq)),
+                                  z3.Or(item.z == prelude().null, z3.Select(al, item.z)) if isinstance(elt, TOpt)
+                                  else z3.And(item.z != prelude().null, z3.Select(al, item.z)))
+                used = [b for b in self.bound_vars if _occurs(b, item.z)]
+                if used:
+                    fact = z3.ForAll(used, fact, patterns=[item.z])
+                if self.spec_mode:
+                    if self._spec_facts is not None:
+                        self._spec_facts.append(z3.Implies(z3.And(*st.guards), fact) if st.guards else fact)
+                else:
+                    st.pc.append(z3.Implies(z3.And(*st.guards), fact) if st.guards else fact)
+            return item
         if isinstance(t, TDict):
             if isinstance(idx.t, TOpt) and not isinstance(t.key, (TOpt, TOpaque)):
                 # None is not a key of a dict whose declared key type excludes it: KeyError in the code,
